@@ -2,7 +2,7 @@
     Statements only; proofs are in Proofs/PduP.v (writer), Proofs/PduReadP.v (reader),
     Proofs/Ps38P.v (independent PS3.8 structure).  The model is Model/Pdu.v:
     [write_pdu] = ul/src/pdu/writer.rs, [read_pdu max strict] = ul/src/pdu/reader.rs. *)
-From DicomV Require Import Base.Prelude Model.Pdu Spec.Ps38 Proofs.PduP Proofs.PduReadP Proofs.Ps38P.
+From DicomV Require Import Base.Prelude Base.Endian Model.Pdu Spec.Ps38 Proofs.PduP Proofs.PduReadP Proofs.Ps38P Proofs.PduTotalP.
 
 (** Round trip with exact framing: every well-formed PDU (any number of presentation
     contexts, transfer syntaxes, user variables, strings and payloads of any length that
@@ -59,6 +59,14 @@ Theorem C25_strict_header : forall max t r plen tail,
   read_pdu max true (t :: r :: be32 plen ++ tail) = Err E_PduTooLarge.
 Proof. exact read_strict_too_large. Qed.
 
+(** The reader never panics, on ARBITRARY buffers of bytes (values < 256), for any maximum
+    and mode: every unguarded [get_u8/get_u16/get_u32/copy_to_bytes/advance] and the u16
+    addition of the real reader is an explicit [Panic] in the model, guarded as in the code
+    (e.g. [remaining() >= 4 + 1 + 1] before the two [get_u8] of a PDV), and all are unreachable. *)
+Theorem C25_read_total : forall max strict b w,
+  wf_bytes b -> read_pdu max strict b <> Panic w.
+Proof. intros max strict b w H. apply read_pdu_total. exact H. Qed.
+
 (** Non-vacuity: an A-ASSOCIATE-RQ with two presentation contexts and every kind of
     user variable is well-formed, and so is a P-DATA-TF with two PDVs. *)
 Example C25_nonvacuous_rq :
@@ -93,6 +101,9 @@ Check C25_oversize : forall p, fits_pdu p = false -> exists e, write_pdu p = Err
 Check C25_strict : forall max p b rest,
   max_ok max = true -> write_pdu p = Ok b -> max < len b - 6 ->
   read_pdu max true (b ++ rest) = Err E_PduTooLarge.
+Check C25_read_total : forall max strict b w,
+  wf_bytes b -> read_pdu max strict b <> Panic w.
+Print Assumptions C25_read_total.
 Print Assumptions C25_rt.
 Print Assumptions C25_writable.
 Print Assumptions C25_prefix.
